@@ -243,7 +243,7 @@ var spinCases = []spinCase{
 
 // spinWorker runs each expression in a separate plain mlr process under a CPU
 // time limit (RLIMIT_CPU, not wall clock: machine load cannot turn into a
-// verdict). A normal evaluation needs ~10 ms of CPU; the limit is 20 s.
+// verdict). A normal evaluation needs ~10 ms of CPU; the limit is 10 s (1000x).
 func spinWorker(w *vf.Worker) {
 	bin := vf.MlrBin()
 	for i, c := range spinCases {
@@ -261,10 +261,11 @@ func spinWorker(w *vf.Worker) {
 			w.Inexhaustive("prlimit not available: termination probes skipped")
 			continue
 		}
-		const cpuSecs = 20
+		const cpuSecs = 10
+		const attempts = 1 // CPU time is not affected by machine load: no need to re-run
 		spun := 0
 		var last string
-		for attempt := 0; attempt < 2; attempt++ {
+		for attempt := 0; attempt < attempts; attempt++ {
 			ctx, cancel := context.WithTimeout(context.Background(), 30*time.Minute)
 			cmd := exec.CommandContext(ctx, "prlimit", fmt.Sprintf("--cpu=%d", cpuSecs), bin, "-n", "put", "end{print \"[\" . "+c.expr+" . \"]\"}")
 			cmd.SysProcAttr = &syscall.SysProcAttr{Setpgid: true}
@@ -303,9 +304,9 @@ func spinWorker(w *vf.Worker) {
 		w.Nontrivial(1)
 		w.Count("calls:termination-probe", 1)
 		w.Count("asserted:termination-probe", 1)
-		if spun == 2 {
+		if spun == attempts {
 			w.Violation(fmt.Sprintf("no-termination:%02d:%s", len(c.expr), c.expr),
-				fmt.Sprintf("mlr -n put 'end{print %s}' does not terminate: killed after %d s of CPU time, twice (%s); output so far %q", c.expr, cpuSecs, c.why, last),
+				fmt.Sprintf("mlr -n put 'end{print %s}' does not terminate: killed after %d s of CPU time (%s); output so far %q", c.expr, cpuSecs, c.why, last),
 				map[string]any{"command": []string{"mlr", "-n", "put", "end{print " + c.expr + "}"}, "cpu_limit_s": cpuSecs})
 		}
 	}
